@@ -16,9 +16,10 @@ claimed = {
  "C11": ("exploration", "3", "seeded simulation with real gRPC over the mux pool; RPC outcome and serving session vs the registered live set at quiescent points"),
  "C19": ("fault_enumeration", "3", "seeded TLS handshakes between the proxy's real TLS configurations and a harness peer with generated credentials, under simulated clock jumps and connection cuts/corruption; admission vs independent x509 verification at the simulated time"),
  "C20": ("exploration", "3", "seeded simulation of the stream handler with hostile stream-open metadata followed by well-formed streams; served-or-rejected, wedge (task waiting on a lock forever) and crash oracles"),
+ "C07": ("exploration", "3", "configuration swarm over a really assembled and running ClusterConnection in LCM mode between two fake clusters on the simulated network; DescribeCluster override and forwarded stream metadata vs independent arithmetic and Temporal's hash partitioning"),
  "C08": ("exploration", "3", "seeded simulation with overlapping stream incarnations; crash, registry and leaked-task oracles"),
 }
-pending = {k: "check under construction in this round (simulation world not built yet); will be claimed once it runs" for k in ["C07"]}
+pending = {k: "check under construction in this round (simulation world not built yet); will be claimed once it runs" for k in []}
 NA = {
  "C12": "pure function of (message, namespace mapping): no schedule, clock, fault or interleaving for a simulator to own",
  "C13": "pure function of (message, mapping, static wiring): no schedule, clock or fault can change the outcome",
